@@ -59,7 +59,7 @@ open TaskModel.Finger
 
 /-- the property, for a given wiring -/
 def C04_full (cfg : Cfg) : Prop :=
-  ∀ (H : Bytes → Bytes) (pr : Proj) (hist : List Step) (i : Nat) (t : Task) (e : Env),
+  ∀ (H : Hashes) (pr : Proj) (hist : List Step) (i : Nat) (t : Task) (e : Env),
     pr.tasks[i]? = some t → t.sources.isEmpty = false →
     (invoke cfg H pr i .run e (runHist cfg H pr hist State.empty).1).2.skipped = true →
     goodRun H pr i t (runHist cfg H pr hist State.empty).1 = true
@@ -77,8 +77,8 @@ private def run (i n : Nat) : Step := .inv i .run (env n)
 /-- a history after which task `i` is skipped although `goodRun` fails -/
 def Bad (cfg : Cfg) (pr : Proj) (hist : List Step) (i : Nat) (t : Task) : Prop :=
   pr.tasks[i]? = some t ∧ t.sources.isEmpty = false ∧
-  (invoke cfg id pr i .run (env 99) (runHist cfg id pr hist State.empty).1).2.skipped = true ∧
-  goodRun id pr i t (runHist cfg id pr hist State.empty).1 = false
+  (invoke cfg hId pr i .run (env 99) (runHist cfg hId pr hist State.empty).1).2.skipped = true ∧
+  goodRun hId pr i t (runHist cfg hId pr hist State.empty).1 = false
 
 instance (cfg : Cfg) (pr : Proj) (hist : List Step) (i : Nat) (t : Task) : Decidable (Bad cfg pr hist i t) := by
   unfold Bad; infer_instance
@@ -181,7 +181,7 @@ one: the source written with mtime 15 is compared with the generates file (10) a
 the former witness is no longer bad, and no marker exists after the up-to-date check. -/
 theorem C04_timestamp_marker_created_fixed :
     ¬ Bad Cfg.fixed (pj [tg]) [w0, .inv 0 .force (env 10), run 0 20, .op (.write 0 [2] 15)] 0 tg ∧
-    (runHist Cfg.fixed id (pj [tg]) [w0, .inv 0 .force (env 10), run 0 20] State.empty).1.marks = [] := by decide
+    (runHist Cfg.fixed hId (pj [tg]) [w0, .inv 0 .force (env 10), run 0 20] State.empty).1.marks = [] := by decide
 
 /-- (open, same root) the generates file is rewritten by something else (another task, an editor)
 after the source was edited. -/
@@ -191,14 +191,14 @@ theorem C04_counterexample_timestamp_generates_by_others :
 theorem C04_full_false : ¬ C04_full Cfg.fixed := by
   intro h
   have hb := C04_counterexample_kill
-  have := h id _ _ 0 _ (env 99) hb.1 hb.2.1 hb.2.2.1
+  have := h hId _ _ 0 _ (env 99) hb.1 hb.2.1 hb.2.2.1
   rw [hb.2.2.2] at this
   cases this
 
 /-! ## The partial theorem -/
 
 section
-variable (H : Bytes → Bytes) (pr : Proj)
+variable (H : Hashes) (pr : Proj)
 
 /-- pairwise distinct checksum file names among the checksum tasks -/
 def KeysDistinct (pr : Proj) : Prop :=
@@ -842,8 +842,8 @@ example :
     let hist : List Step := [w0, .inv 0 .run { env 10 with failAt := some 1 }, .inv 0 .dry (env 20), .inv 0 .status (env 30),
       .inv 0 .listJson (env 40), .inv 1 .run { env 45 with yes := false }, run 0 50, .inv 1 .force (env 60), .op (.touch 0 70)]
     (∀ st ∈ hist, Allowed st) ∧
-    (invoke Cfg.fixed id pr 0 .run (env 99) (runHist Cfg.fixed id pr hist State.empty).1).2.skipped = true ∧
-    goodRun id pr 0 t (runHist Cfg.fixed id pr hist State.empty).1 = true := by
+    (invoke Cfg.fixed hId pr 0 .run (env 99) (runHist Cfg.fixed hId pr hist State.empty).1).2.skipped = true ∧
+    goodRun hId pr 0 t (runHist Cfg.fixed hId pr hist State.empty).1 = true := by
   refine ⟨?_, by decide, by decide⟩
   intro st hst
   simp only [List.mem_cons, List.not_mem_nil, or_false] at hst
@@ -854,9 +854,9 @@ the checksum (it is not up to date), and the task of the example is a checksum t
 example :
     let t := mk [120] .checksum true 1
     let e : Env := { env 10 with yes := false }
-    let s := (runHist Cfg.fixed id (pj [t]) [w0] State.empty).1
-    Cs t ∧ Declined t e ∧ (invoke Cfg.fixed id (pj [t]) 0 .run e s).2.skipped = false ∧
-    (isUpToDate id (pj [t]) t false 10 s).1.sums ≠ [] ∧ (invoke Cfg.fixed id (pj [t]) 0 .run e s).1.sums = [] := by decide
+    let s := (runHist Cfg.fixed hId (pj [t]) [w0] State.empty).1
+    Cs t ∧ Declined t e ∧ (invoke Cfg.fixed hId (pj [t]) 0 .run e s).2.skipped = false ∧
+    (isUpToDate hId (pj [t]) t false 10 s).1.sums ≠ [] ∧ (invoke Cfg.fixed hId (pj [t]) 0 .run e s).1.sums = [] := by decide
 
 /-- the hypothesis left after fix N and fix F8A holds of the project of the example — `a-b` and
 `a:b`, which NORMALISE to one name — and of a project whose two checksum tasks carry the SAME label
@@ -880,15 +880,15 @@ example :
     let x : Task := { mk [120] .checksum false 1 with label := [76] }
     let y : Task := { mk [121] .checksum false 1 with label := [76] }
     let pr := pj [x, y]
-    (invoke Cfg.fixed id pr 1 .run (env 99) (runHist Cfg.fixed id pr [w0, run 0 10] State.empty).1).2.skipped = false ∧
-    (invoke Cfg.fixed id pr 1 .run (env 99) (runHist Cfg.fixed id pr [w0, run 0 10, run 1 20] State.empty).1).2.skipped = true ∧
-    goodRun id pr 1 y (runHist Cfg.fixed id pr [w0, run 0 10, run 1 20] State.empty).1 = true ∧
-    (invoke Cfg.fixed id pr 0 .run (env 99) (runHist Cfg.fixed id pr [w0, run 0 10, run 1 20] State.empty).1).2.skipped = true := by
+    (invoke Cfg.fixed hId pr 1 .run (env 99) (runHist Cfg.fixed hId pr [w0, run 0 10] State.empty).1).2.skipped = false ∧
+    (invoke Cfg.fixed hId pr 1 .run (env 99) (runHist Cfg.fixed hId pr [w0, run 0 10, run 1 20] State.empty).1).2.skipped = true ∧
+    goodRun hId pr 1 y (runHist Cfg.fixed hId pr [w0, run 0 10, run 1 20] State.empty).1 = true ∧
+    (invoke Cfg.fixed hId pr 0 .run (env 99) (runHist Cfg.fixed hId pr [w0, run 0 10, run 1 20] State.empty).1).2.skipped = true := by
   decide
 
 /-- the statement of `C04_partial_timestamp` WITHOUT the side condition on `generates` -/
 def C04_timestamp_with_generates : Prop :=
-  ∀ (H : Bytes → Bytes) (pr : Proj), NamesDistinct pr → ∀ (hist : List Step), (∀ st ∈ hist, Allowed st) → ClockOK 0 hist →
+  ∀ (H : Hashes) (pr : Proj), NamesDistinct pr → ∀ (hist : List Step), (∀ st ∈ hist, Allowed st) → ClockOK 0 hist →
     ∀ (i : Nat) (t : Task) (e : Env), pr.tasks[i]? = some t → t.method = .timestamp → t.sources.isEmpty = false →
       (invoke Cfg.fixed H pr i .run e (runHist Cfg.fixed H pr hist State.empty).1).2.skipped = true →
       goodRun H pr i t (runHist Cfg.fixed H pr hist State.empty).1 = true
@@ -903,7 +903,7 @@ theorem C04_timestamp_with_generates_false : ¬ C04_timestamp_with_generates := 
     | 0, 0 => rfl
     | i + 1, _ => simp [pj] at hi
     | 0, j + 1 => simp [pj] at hj
-  have := h id (pj [tg]) hd [w0, .op (.write 1 [8] 7)] (by intro st hst; simp at hst; rcases hst with h | h <;> subst h <;> simp [Allowed, w0])
+  have := h hId (pj [tg]) hd [w0, .op (.write 1 [8] 7)] (by intro st hst; simp at hst; rcases hst with h | h <;> subst h <;> simp [Allowed, w0])
     (by decide) 0 tg (env 99) hb.1 (by decide) hb.2.1 hb.2.2.1
   rw [hb.2.2.2] at this
   cases this
@@ -915,27 +915,27 @@ removes it again, and (no generates file) the next run is not skipped -/
 example :
     let t := mk [120] .timestamp true 1
     let e : Env := { env 10 with yes := false }
-    let s := (runHist Cfg.fixed id (pj [t]) [w0] State.empty).1
-    Ts t ∧ Declined t e ∧ (invoke Cfg.fixed id (pj [t]) 0 .run e s).2.skipped = false ∧
-    (isUpToDate id (pj [t]) t false 10 s).1.marks ≠ [] ∧ (invoke Cfg.fixed id (pj [t]) 0 .run e s).1.marks = [] ∧
+    let s := (runHist Cfg.fixed hId (pj [t]) [w0] State.empty).1
+    Ts t ∧ Declined t e ∧ (invoke Cfg.fixed hId (pj [t]) 0 .run e s).2.skipped = false ∧
+    (isUpToDate hId (pj [t]) t false 10 s).1.marks ≠ [] ∧ (invoke Cfg.fixed hId (pj [t]) 0 .run e s).1.marks = [] ∧
     globs (nowPats t.generates s.files) = [] ∧
-    (invoke Cfg.fixed id (pj [t]) 0 .run (env 20) (invoke Cfg.fixed id (pj [t]) 0 .run e s).1).2.ran = [0] := by decide
+    (invoke Cfg.fixed hId (pj [t]) 0 .run (env 20) (invoke Cfg.fixed hId (pj [t]) 0 .run e s).1).2.ran = [0] := by decide
 
 /-- failed run / failed `--force` run: exit `failed`, a marker (of an earlier successful run) is there
 before and gone afterwards -/
 example :
     let t := mk [120] .timestamp false 1
-    let s := (runHist Cfg.fixed id (pj [t]) [w0, run 0 10, .op (.touch 0 15)] State.empty).1
+    let s := (runHist Cfg.fixed hId (pj [t]) [w0, run 0 10, .op (.touch 0 15)] State.empty).1
     let ef : Env := { env 20 with failAt := some 0 }
     Ts t ∧ aget s.marks (tsKey t) = some 10 ∧
-    (invoke Cfg.fixed id (pj [t]) 0 .run ef s).2.exit = .failed ∧ (invoke Cfg.fixed id (pj [t]) 0 .run ef s).1.marks = [] ∧
-    (invoke Cfg.fixed id (pj [t]) 0 .force ef s).2.exit = .failed ∧ (invoke Cfg.fixed id (pj [t]) 0 .force ef s).1.marks = [] := by
+    (invoke Cfg.fixed hId (pj [t]) 0 .run ef s).2.exit = .failed ∧ (invoke Cfg.fixed hId (pj [t]) 0 .run ef s).1.marks = [] ∧
+    (invoke Cfg.fixed hId (pj [t]) 0 .force ef s).2.exit = .failed ∧ (invoke Cfg.fixed hId (pj [t]) 0 .force ef s).1.marks = [] := by
   decide
 
 /-- without a marker a skip needs generates: the never-ran witness meets the hypotheses -/
 example :
-    let s := (runHist Cfg.fixed id (pj [tg]) [w0, .op (.write 1 [8] 7)] State.empty).1
-    Ts tg ∧ aget s.marks (tsKey tg) = none ∧ (invoke Cfg.fixed id (pj [tg]) 0 .run (env 99) s).2.skipped = true ∧
+    let s := (runHist Cfg.fixed hId (pj [tg]) [w0, .op (.write 1 [8] 7)] State.empty).1
+    Ts tg ∧ aget s.marks (tsKey tg) = none ∧ (invoke Cfg.fixed hId (pj [tg]) 0 .run (env 99) s).2.skipped = true ∧
     globs (nowPats tg.generates s.files) = [1] := by decide
 
 /-- the up-to-date checks and the edit: marker 10 after the run at 10; two runs (20, 30) are reported
@@ -943,16 +943,16 @@ up to date and change nothing; the source is then written with mtime 25 (> 10, n
 generates file written at 10) and the run at 40 executes the command.  `marker_is_last_run`: the
 run at 10 was asked for by the timestamp check. -/
 example :
-    let s0 := (runHist Cfg.fixed id (pj [tg]) [w0] State.empty).1
-    let s := (invoke Cfg.fixed id (pj [tg]) 0 .run (env 10) s0).1
-    Ts tg ∧ tsUp tg s0 = false ∧ (invoke Cfg.fixed id (pj [tg]) 0 .run (env 10) s0).2.exit = .ok ∧
+    let s0 := (runHist Cfg.fixed hId (pj [tg]) [w0] State.empty).1
+    let s := (invoke Cfg.fixed hId (pj [tg]) 0 .run (env 10) s0).1
+    Ts tg ∧ tsUp tg s0 = false ∧ (invoke Cfg.fixed hId (pj [tg]) 0 .run (env 10) s0).2.exit = .ok ∧
     aget s.marks (tsKey tg) = some 10 ∧
-    AllSkipped (runHist Cfg.fixed id (pj [tg]) (checks 0 [env 20, env 30]) s).2 ∧
-    (runHist Cfg.fixed id (pj [tg]) (checks 0 [env 20, env 30]) s).1 = s ∧
+    AllSkipped (runHist Cfg.fixed hId (pj [tg]) (checks 0 [env 20, env 30]) s).2 ∧
+    (runHist Cfg.fixed hId (pj [tg]) (checks 0 [env 20, env 30]) s).1 = s ∧
     lastFlag tg.sources 0 = some true ∧
     (∀ g ∈ globs (nowPats tg.generates (aset s.files 0 ⟨[2], 25⟩)), mtimeOf (aset s.files 0 ⟨[2], 25⟩) g < 25) ∧
-    (invoke Cfg.fixed id (pj [tg]) 0 .run (env 40)
-      (applyOp (pj [tg]) (.write 0 [2] 25) (runHist Cfg.fixed id (pj [tg]) (checks 0 [env 20, env 30]) s).1)).2.ran = [0] := by
+    (invoke Cfg.fixed hId (pj [tg]) 0 .run (env 40)
+      (applyOp (pj [tg]) (.write 0 [2] 25) (runHist Cfg.fixed hId (pj [tg]) (checks 0 [env 20, env 30]) s).1)).2.ran = [0] := by
   decide
 
 /-- `C04_partial_timestamp`: a history using every allowed kind of step on a project with a checksum
@@ -965,8 +965,8 @@ example :
       .inv 0 .listJson (env 40), .inv 1 .run { env 45 with yes := false }, run 0 50, .inv 1 .force (env 60), run 2 65,
       .inv 0 .force (env 70), .op (.touch 0 45)]
     (∀ st ∈ hist, Allowed st) ∧ ClockOK 0 hist ∧ NoPosGenerates t ∧ Ts t ∧
-    (invoke Cfg.fixed id pr 0 .run (env 99) (runHist Cfg.fixed id pr hist State.empty).1).2.skipped = true ∧
-    goodRun id pr 0 t (runHist Cfg.fixed id pr hist State.empty).1 = true := by
+    (invoke Cfg.fixed hId pr 0 .run (env 99) (runHist Cfg.fixed hId pr hist State.empty).1).2.skipped = true ∧
+    goodRun hId pr 0 t (runHist Cfg.fixed hId pr hist State.empty).1 = true := by
   refine ⟨?_, by decide, by decide, by decide, by decide, by decide⟩
   intro st hst
   simp only [List.mem_cons, List.not_mem_nil, or_false] at hst
@@ -992,13 +992,13 @@ example : NamesDistinct (pj [mk [120] .timestamp false 2, mk [121] .timestamp tr
 /-- `C04_partial_timestamp_general` on a task WITH generates: the history of the never-ran witness
 ends in a skip without `goodRun`, and `GenNewer` holds (no marker, the generates file exists) -/
 example :
-    (invoke Cfg.fixed id (pj [tg]) 0 .run (env 99)
-      (runHist Cfg.fixed id (pj [tg]) [w0, .op (.write 1 [8] 7)] State.empty).1).2.skipped = true ∧
-    goodRun id (pj [tg]) 0 tg (runHist Cfg.fixed id (pj [tg]) [w0, .op (.write 1 [8] 7)] State.empty).1 = false ∧
-    GenNewer tg (runHist Cfg.fixed id (pj [tg]) [w0, .op (.write 1 [8] 7)] State.empty).1 := by
+    (invoke Cfg.fixed hId (pj [tg]) 0 .run (env 99)
+      (runHist Cfg.fixed hId (pj [tg]) [w0, .op (.write 1 [8] 7)] State.empty).1).2.skipped = true ∧
+    goodRun hId (pj [tg]) 0 tg (runHist Cfg.fixed hId (pj [tg]) [w0, .op (.write 1 [8] 7)] State.empty).1 = false ∧
+    GenNewer tg (runHist Cfg.fixed hId (pj [tg]) [w0, .op (.write 1 [8] 7)] State.empty).1 := by
   refine ⟨by decide, by decide, 1, by decide, ?_⟩
   intro m hm
-  have h0 : aget (runHist Cfg.fixed id (pj [tg]) [w0, .op (.write 1 [8] 7)] State.empty).1.marks (tsKey tg) = none := by
+  have h0 : aget (runHist Cfg.fixed hId (pj [tg]) [w0, .op (.write 1 [8] 7)] State.empty).1.marks (tsKey tg) = none := by
     decide
   rw [h0] at hm; cases hm
 
